@@ -481,6 +481,9 @@ func (vc *VC) load(st *State, p Ptr, t types.Type) Val {
 		}
 		i++
 	}
+	if vc.inBinder == 0 {
+		facts = append(facts, vc.typedRefFact(st, t, v))
+	}
 	f := and(facts...)
 	if f != "true" && vc.inBinder == 0 {
 		vc.assert(f)
